@@ -355,8 +355,8 @@ def run_resolver_serialized(st: infra.Stats):
     src = ["from apischema.graphql import resolver"]
     metas = []
     k = 0
-    for sp in (None, ("v", -1), ("v", 999), ("before", "f0"), ("after", "f0"), ("before", "f1")):
-        for fspec in ({}, {"f1": ("v", -1)}, {"f0": ("after", "m0")}):
+    for sp, aliased in itertools.product((None, ("v", -1), ("v", 999), ("before", "f0"), ("after", "f0"), ("before", "f1")), (False, True)):
+        for fspec in ({}, {"f1": ("v", -1)}, {"f0": ("after", "m0")}, {"f1": ("before", "m0")}):
             spec = dict(fspec)
             if sp is not None:
                 spec["m0"] = sp
@@ -369,7 +369,9 @@ def run_resolver_serialized(st: infra.Stats):
             for n in ("f0", "f1"):
                 fo = spec_src(spec.get(n))
                 lines.append(f"    {n}: int = field(default=0, metadata={fo})" if fo else f"    {n}: int = 0")
-            lines.append(f"    @resolver(serialized=True, order={o})" if o else "    @resolver(serialized=True)")
+            # aliased: the method is exposed under another name than the one orderings refer to
+            al = "'a_m0', " if aliased else ""
+            lines.append(f"    @resolver({al}serialized=True, order={o})" if o else f"    @resolver({al}serialized=True)")
             lines.append("    def m0(self) -> int:")
             lines.append("        return 1")
             src.append("\n".join(lines))
@@ -383,7 +385,9 @@ def run_resolver_serialized(st: infra.Stats):
         got = {"serialize": list(serialize(cls, cls())), "serialization_schema": list(serialization_schema(cls).get("properties", {}))}
         if not isinstance(gql, Exception) and cname in gql:
             got["graphql"] = list(gql[cname].fields)
+        ren = {"a_m0": "m0", "aM0": "m0"}
         for view, g in got.items():
+            g = [ren.get(x, x) for x in g]
             if g != exp:
                 st.violation({"signature": {"kind": "order", "view": view, "lost": bool(set(exp) - set(g)), "duplicated": False, "world": "resolver_serialized"}, "what": f"{view} order {g} != expected {exp} for spec {spec} (m0 declared with resolver(serialized=True))"[:400], "spec": repr(spec), "n": [2, 1], "extra": "resolver_serialized"})
     import sys
